@@ -3,7 +3,7 @@
 pass with the patch; then run /verif's quick checks against the patch applied to /repo (and undo)."""
 import subprocess, sys, os, json
 pid = sys.argv[1]
-wt = "/tmp/seed/wt_%s" % pid
+wt = sys.argv[2] if len(sys.argv) > 2 else "/tmp/seed/wt_%s" % pid
 out = os.path.join(wt, "seed_out")
 patch = os.path.join(out, "patch.diff")
 env = dict(os.environ, PYTHONPATH=wt, NUMBA_DISABLE_JIT=os.environ.get("SEED_JIT_OFF", "1"))
@@ -24,6 +24,9 @@ res["tests_with_patch"] = t.stdout.strip().splitlines()[:3]
 run(["git", "-C", wt, "apply", "-R", patch])
 res["demo_without_patch"] = demo()
 run(["git", "-C", wt, "apply", patch])
-s = run(["/venv/bin/python", "/verif/tools/try_seed.py", patch], cwd="/verif", timeout=3000)
-res["verif_checks"] = s.stdout.strip().splitlines()
+if os.environ.get("SKIP_TRY"):
+    res["verif_checks"] = ["skipped (replayed later with tools/replay_seeds.py)"]
+else:
+    s = run(["/venv/bin/python", "/verif/tools/try_seed.py", patch], cwd="/verif", timeout=3000)
+    res["verif_checks"] = s.stdout.strip().splitlines()
 print(json.dumps(res, indent=1))
